@@ -26,6 +26,7 @@ import (
 	"github.com/free5gc/go-upf/internal/forwarder"
 	"github.com/free5gc/go-upf/internal/logger"
 	"github.com/free5gc/go-upf/internal/report"
+	"github.com/free5gc/go-upf/internal/verif/deepdump"
 	"github.com/free5gc/go-upf/pkg/factory"
 )
 
@@ -502,6 +503,10 @@ func (v *VServer) Dump(o DumpOpt) string {
 			sb.WriteString("sess " + d + "\n")
 		}
 	}
+	// state the hand-written dump does not know (fields added by a change to the implementation)
+	if x := deepdump.Extra(s, knownFields); x != "" {
+		sb.WriteString("extra " + x + "\n")
+	}
 	if !o.NoTrans {
 		for _, r := range v.Rx() {
 			fmt.Fprintf(&sb, "rx %s rsp=%s\n", r.ID, h8(r.Rsp))
@@ -512,6 +517,20 @@ func (v *VServer) Dump(o DumpOpt) string {
 		fmt.Fprintf(&sb, "txSeq=%d\n", s.txSeq)
 	}
 	return sb.String()
+}
+
+// knownFields: what the hand-written dumps already cover ("!" = do not traverse).
+var knownFields = deepdump.Known{
+	"pfcp.PfcpServer":    {"cfg!", "listen", "nodeID", "rcvCh!", "srCh!", "trToCh!", "conn!", "recoveryTime!", "driver!", "lnode", "rnodes", "txTrans", "rxTrans", "txSeq", "log!"},
+	"pfcp.LocalNode":     {"sess", "free"},
+	"pfcp.RemoteNode":    {"ID", "addr!", "local!", "sess", "driver!", "log!"},
+	"pfcp.Sess":          {"rnode!", "LocalID", "RemoteID", "PDRIDs", "FARIDs", "QERIDs", "URRIDs", "BARIDs", "q!", "qlen", "log!"},
+	"pfcp.PDRInfo":       {"RelatedURRIDs"},
+	"pfcp.URRInfo":       {"removed", "SEQN", "MeasureMethod", "MeasureInformation", "refPdrNum"},
+	"report.MeasureMethod":      {"DURAT", "VOLUM", "EVENT"},
+	"report.MeasureInformation": {"MBQE", "INAM", "RADI", "ISTM", "MNOP", "SSPOC", "ASPOC", "CIAM"},
+	"pfcp.TxTransaction": {"server!", "raddr!", "seq", "id", "retransTimeout", "maxRetrans", "req!", "msgBuf", "timer!", "retransCount", "log!"},
+	"pfcp.RxTransaction": {"server!", "raddr!", "seq", "id", "timeout", "msgBuf", "timer!", "log!"},
 }
 
 // RecoveryTime exposes the process-wide recovery time stamp (compared for equality only).
